@@ -90,12 +90,16 @@ def roundtrip(run, n, t):
         return [('%s.transform-raises' % PID, '%s:%s@%s' % (t, type(e).__name__, R.where(e)), '%s raised %s: %s' % (t, type(e).__name__, str(e)[:200]))]
     c0 = plain_names(undefined_as_inout(canon(n)))
     path = run.path('.v')
-    f = R.try_compose(n, path, PID)
+    # one case in three is written with the documented option defparam=True (instance parameters as defparam statements); the choice is a
+    # function of the netlist, so a replay makes the same one
+    import hashlib
+    opts = {'defparam': True} if int(hashlib.sha1(repr(c0).encode()).hexdigest(), 16) % 3 == 0 else {}
+    f = R.try_compose(n, path, PID, **opts)
     if f:
-        return [(f[0], t + ':' + f[1], f[2])]
+        return [(f[0], t + ':' + f[1], f[2] + (' (composed with defparam=True)' if opts else ''))]
     m, f = R.try_parse(path, PID, 'written-text-rejected')
     if f:
-        return [(f[0], t + ':' + f[1], f[2])]
+        return [(f[0], t + ':' + f[1], f[2] + (' (composed with defparam=True)' if opts else ''))]
     try:
         c1 = plain_names(undefined_as_inout(canon(m)))
     except Exception as e:
